@@ -18,6 +18,7 @@ VARIABLE mon
 MaxRuns == 6
 
 NoRunMon == [started |-> FALSE, stopped |-> 0, status |-> "", engineClosed |-> FALSE, descs |-> {},
+             dmask |-> [s \in Streams |-> "none"], stale |-> {},
              maxseq |-> [s \in Streams |-> 0], rewAtLast |-> [s \in Streams |-> 0], nev |-> [s \in Streams |-> 99],
              intrWant |-> 0]
 MonInitVal ==
@@ -43,6 +44,26 @@ MonInitVal ==
     susp |-> {},                 \* futures of suspensions in effect (requested, accepted, not released)
     suspWait |-> FALSE,          \* the engine is inside the wait of a suspension
     pausedNow |-> FALSE,
+    \* C11/C12/C13/C14/C15/C16/C40 bookkeeping
+    genYielded |-> FALSE,        \* the main plan has just yielded: the next msg event is its message
+    planMsg |-> [cmd |-> "", obj |-> "", run |-> ""],   \* the message the main plan is waiting on
+    planRaised |-> "",           \* exception kind the main plan ended with
+    devErrPending |-> FALSE,     \* a device call raised: the next plan resumption must be the throw of that error
+    failPending |-> FALSE,       \* a status failed and has not been thrown into the plan yet
+    curRun |-> "none",           \* run key of the message being executed ("none": no message in progress)
+    keyOrd |-> [k \in RunKeys |-> 0],        \* run key -> ordinal of the run currently open under that key
+    pendingOpen |-> "none",
+    dupOpen |-> FALSE,           \* an open_run for a key that is already open was executed
+    bundle |-> [k \in RunKeys |-> [open |-> FALSE, mask |-> 0, n |-> 0, collide |-> FALSE]],
+    expectEvent |-> "none",      \* "none" | "no" | decimal device mask: what the current save must emit
+    gotEvent |-> FALSE,
+    cfgVer |-> [d \in Devices |-> 1],
+    suspStopDue |-> {},          \* moved devices that must be stopped by the suspension that just started
+    recIntr |-> FALSE,
+    expOutcome |-> "ok",         \* C03: how the uninterrupted execution of the same plan ends
+    c04off |-> FALSE,            \* a checkpoint-like command failed: replay expectations are not tracked for this call
+    expData |-> {},              \* C03: expected <<ord, stream, seq, digest>> of the uninterrupted execution
+    gotData |-> {},              \* C03: <<ord, stream, seq, digest>> last emitted
     st |-> "idle",               \* engine state as reported by state events
     planDone |-> FALSE,          \* the plan handed to RE(...) has returned or raised (post-plan window)
     lastCmd |-> "",              \* command of the last message executed (call-site part of a signature)
@@ -54,6 +75,23 @@ MonInit == mon = MonInitVal
 Viol(m, tag) == [m EXCEPT !.viol = @ \cup {tag}]
 ViolIf(m, c, tag) == IF c THEN Viol(m, tag) ELSE m
 
+RECURSIVE DevBitFrom(_, _)
+DevBitFrom(i, d) == IF i > Len(DevOrder) THEN 0 ELSE IF DevOrder[i] = d THEN 2 ^ (i - 1) ELSE DevBitFrom(i + 1, d)
+DevBit(d) == DevBitFrom(1, d)
+HasBit(mask, b) == b > 0 /\ (mask \div b) % 2 = 1
+
+\* the response class the plan must receive for a message (C13); {} = not checked
+ExpectedResp(pm) ==
+  CASE pm.cmd = "" -> {"None"}
+    [] pm.cmd \in {"open_run", "close_run"} -> {"str"}
+    [] pm.cmd \in {"create", "save", "drop", "checkpoint", "clear_checkpoint", "null", "sleep", "monitor", "unmonitor", "pause", "stop"} -> {"None"}
+    [] pm.cmd = "read" -> IF pm.obj \in DOMAIN ReadVal THEN {ReadVal[pm.obj]} ELSE {}
+    [] pm.cmd \in {"set", "trigger"} -> {"status"}
+    [] pm.cmd = "wait" -> {"bool:True", "bool:False"}
+    [] pm.cmd \in {"stage", "unstage"} -> {"seq:0", "seq:1"}
+    [] pm.cmd = "rewindable" -> {"bool:True", "bool:False"}
+    [] OTHER -> {}
+
 StreamClass(s) == IF s = "interruptions" THEN "interruptions" ELSE IF s \in Mons THEN "monitor" ELSE "bundle"
 ControlExc == {"exc:FailedPause", "exc:RequestAbort", "exc:RequestStop", "exc:PlanHalt", "exc:Cancelled"}
 
@@ -63,13 +101,19 @@ ImplicitCkptCmds == {"checkpoint", "stage", "unstage", "monitor", "unmonitor", "
 \* one event; s = engine state before the step, s2 = after (used only for request signatures and C08's resumability)
 UpdDoc(m, e) ==
   LET name == e[2] stream == e[3] status == e[4] seq == e[6] ord == e[7] IN
+  IF e[5] # "" THEN Viol(m, IF e[5] = "dupuid" THEN "C01:duplicate-uid" ELSE "C01:schema-invalid") ELSE
   IF name = "start" THEN
      IF ord # m.nruns + 1 \/ ord > MaxRuns THEN Viol(m, "C01:start-order")
-     ELSE [m EXCEPT !.nruns = ord, !.runs[ord] = [NoRunMon EXCEPT !.started = TRUE]]
+     ELSE LET m1 == [m EXCEPT !.nruns = ord, !.runs[ord] = [NoRunMon EXCEPT !.started = TRUE]]
+              m2 == ViolIf(m1, m.dupOpen, "C14:duplicate-open-accepted")
+          IN IF m.pendingOpen \in RunKeys THEN [m2 EXCEPT !.keyOrd[m.pendingOpen] = ord, !.pendingOpen = "none"] ELSE m2
   ELSE IF ord < 1 \/ ord > m.nruns THEN Viol(m, "C01:no-run-start")
   ELSE LET r == m.runs[ord] IN
        IF r.stopped > 0 THEN Viol(m, IF name = "stop" THEN "C01:second-stop" ELSE "C01:doc-after-stop")
-       ELSE IF name = "descriptor" THEN [m EXCEPT !.runs[ord].descs = @ \cup {stream}]
+       ELSE IF m.curRun \in RunKeys /\ m.keyOrd[m.curRun] # ord /\ StreamClass(stream) = "bundle" /\ name # "stop"
+            THEN Viol(m, "C14:document-in-wrong-run")
+       ELSE IF stream = "interruptions" /\ ~m.recIntr THEN Viol(m, "C40:stream-when-disabled")
+       ELSE IF name = "descriptor" THEN [m EXCEPT !.runs[ord].descs = @ \cup {stream}, !.runs[ord].stale = @ \ {stream}]
        ELSE IF name = "event" THEN
             LET m1 == ViolIf(m, stream \notin r.descs, "C01:event-without-descriptor")
                 mx == r.maxseq[stream]
@@ -78,11 +122,14 @@ UpdDoc(m, e) ==
                       ELSE \* seq <= max: a repeated seq_num -- only a re-taken bundled data point after a rewind
                            IF StreamClass(stream) = "bundle" /\ r.rewAtLast[stream] < m.rew THEN m1
                            ELSE Viol(m1, "C05:duplicate-seq:" \o StreamClass(stream))
-            IN [m2 EXCEPT !.runs[ord].maxseq[stream] = IF seq > mx THEN seq ELSE (IF seq >= 1 THEN seq ELSE mx),
+                m3 == ViolIf(m2, stream \in r.stale, "C16:event-references-old-descriptor")
+                m4 == IF StreamClass(stream) = "bundle" /\ m.curRun \in RunKeys THEN [m3 EXCEPT !.gotEvent = TRUE] ELSE m3
+            IN [m4 EXCEPT !.runs[ord].maxseq[stream] = IF seq > mx THEN seq ELSE (IF seq >= 1 THEN seq ELSE mx),
                           !.runs[ord].rewAtLast[stream] = m.rew]
        ELSE IF name = "stop" THEN
             [m EXCEPT !.runs[ord].stopped = 1, !.runs[ord].status = status,
-                      !.runs[ord].engineClosed = ~m.inObsClose, !.inObsClose = FALSE]
+                      !.runs[ord].engineClosed = ~m.inObsClose, !.inObsClose = FALSE,
+                      !.keyOrd = [k \in RunKeys |-> IF m.keyOrd[k] = ord THEN 0 ELSE m.keyOrd[k]]]
        ELSE m
 
 UpdNev(m, e) ==
@@ -90,15 +137,29 @@ UpdNev(m, e) ==
   IF ord < 1 \/ ord > m.nruns THEN Viol(m, "C01:no-run-start")
   ELSE LET r == m.runs[ord]
            m1 == ViolIf(m, n # r.maxseq[stream], "C05:num_events:" \o StreamClass(stream))
-       IN [m1 EXCEPT !.runs[ord].nev[stream] = n]
+           m2 == ViolIf(m1, stream = "interruptions" /\ n # r.intrWant, "C40:count")
+       IN [m2 EXCEPT !.runs[ord].nev[stream] = n]
 
 UpdDev(m, e) ==
   LET d == e[2] op == e[3] IN
-  IF d \notin Devices THEN m ELSE IF e[4] = "raise" THEN [m EXCEPT !.faulty = TRUE]
+  IF d \notin Devices THEN m ELSE IF e[4] = "raise" THEN [m EXCEPT !.faulty = TRUE, !.devErrPending = TRUE]
   ELSE CASE op = "stage" -> [m EXCEPT !.dev[d].stg = @ + 1]
+         [] op = "read" ->
+              IF m.curRun \in RunKeys /\ m.bundle[m.curRun].open
+              THEN LET b == m.bundle[m.curRun] IN
+                   [m EXCEPT !.bundle[m.curRun] = [b EXCEPT !.collide = (@ \/ HasBit(b.mask, DevBit(d))),
+                                                             !.mask = IF HasBit(b.mask, DevBit(d)) THEN @ ELSE @ + DevBit(d), !.n = @ + 1]]
+              ELSE m
+         [] op = "configure" ->
+              \* every stream of every open run whose descriptor lists the device must get a new descriptor before its next event
+              [m EXCEPT !.cfgVer[d] = @ + 1,
+                        !.runs = [o \in 1..MaxRuns |-> IF m.runs[o].started /\ m.runs[o].stopped = 0
+                                    THEN [m.runs[o] EXCEPT !.stale = @ \cup {sn \in Streams : m.runs[o].dmask[sn] # "none" /\ m.runs[o].dmask[sn] # "x"
+                                                                                     /\ \E b \in {DevBit(d)} : \E k \in 0..63 : ToString(k) = m.runs[o].dmask[sn] /\ HasBit(k, b)}]
+                                    ELSE m.runs[o]]]
          [] op = "unstage" -> [m EXCEPT !.dev[d].stg = IF @ > 0 THEN @ - 1 ELSE 0]
          [] op = "set" -> [m EXCEPT !.dev[d].dirty = TRUE]
-         [] op = "stop" -> [m EXCEPT !.dev[d].dirty = FALSE]
+         [] op = "stop" -> [m EXCEPT !.dev[d].dirty = FALSE, !.suspStopDue = @ \ {d}]
          [] op = "subscribe" -> [m EXCEPT !.dev[d].subs = @ + 1]
          [] op = "clear_sub" -> [m EXCEPT !.dev[d].subs = IF @ > 0 THEN @ - 1 ELSE 0]
          [] op = "update" ->
@@ -107,39 +168,121 @@ UpdDev(m, e) ==
          [] OTHER -> m
 
 \* messages: replay bookkeeping (C04), deferred pause (C09), suspension (C11)
-UpdMsg(m, e) ==
-  LET cmd == e[2] a == e[5] mid == e[6]
+UpdMsg(m0, e) ==
+  LET cmd == e[2] a == e[5] mid == e[6] obj == e[3] run == e[4]
+      \* C11: the suspension that just started must have stopped every moved device before anything else runs
+      mA == ViolIf([m0 EXCEPT !.suspStopDue = {}], m0.suspStopDue # {}, "C11:moved-not-stopped-at-suspension")
+      \* C15: a save that had to emit an event / must not emit one
+      mB == IF mA.expectEvent = "none" THEN mA
+            ELSE ViolIf([mA EXCEPT !.expectEvent = "none", !.gotEvent = FALSE],
+                        (mA.expectEvent = "no") = mA.gotEvent /\ ~mA.devErrPending /\ mA.planMsg.cmd = "save",
+                        IF mA.gotEvent THEN "C15:event-from-empty-bundle" ELSE "C15:event-missing")
+      \* C13: this is the main plan's own message if the plan has just yielded
+      mC == IF mB.genYielded THEN [mB EXCEPT !.genYielded = FALSE, !.planMsg = [cmd |-> cmd, obj |-> obj, run |-> run]] ELSE mB
+      mD == [mC EXCEPT !.curRun = run]
+      \* C14: open_run bookkeeping
+      mE == IF cmd = "open_run" /\ run \in RunKeys
+            THEN (IF mD.keyOrd[run] # 0 THEN [mD EXCEPT !.dupOpen = TRUE] ELSE [mD EXCEPT !.pendingOpen = run, !.dupOpen = FALSE])
+            ELSE [mD EXCEPT !.dupOpen = FALSE]
+      \* C15: bundle bookkeeping
+      bk == IF run \in RunKeys THEN mE.bundle[run] ELSE [open |-> FALSE, mask |-> 0, n |-> 0, collide |-> FALSE]
+      mF == IF run \notin RunKeys \/ mE.keyOrd[run] = 0 THEN mE
+            ELSE IF cmd = "create" /\ ~bk.open THEN [mE EXCEPT !.bundle[run] = [open |-> TRUE, mask |-> 0, n |-> 0, collide |-> FALSE]]
+            ELSE IF cmd = "save" /\ bk.open THEN [mE EXCEPT !.bundle[run].open = FALSE, !.gotEvent = FALSE,
+                                                          !.expectEvent = IF bk.n = 0 THEN "no" ELSE ToString(bk.mask)]
+            ELSE IF cmd = "drop" /\ bk.open THEN [mE EXCEPT !.bundle[run].open = FALSE, !.gotEvent = FALSE, !.expectEvent = "no"]
+            ELSE mE
+      m == mF
       \* C04: while replaying, the next message must be the next expected identity
       m1 == IF m.replaying THEN
                IF m.expect = <<>> THEN [m EXCEPT !.replaying = FALSE]
                ELSE IF Head(m.expect) = mid THEN [m EXCEPT !.expect = Tail(@), !.replaying = (Len(m.expect) > 1)]
                ELSE IF cmd \in {"rewindable", "wait_for", "_resume_from_suspender", "_start_suspender"} \/ m.suspWait THEN m
-               ELSE Viol([m EXCEPT !.replaying = FALSE, !.expect = <<>>], "C04:replay-mismatch")
+               ELSE ViolIf([m EXCEPT !.replaying = FALSE, !.expect = <<>>], ~m.c04off, "C04:replay-mismatch")
             ELSE \* not replaying: a message identity that was executed before must not come back
-                 ViolIf(m, mid <= m.maxMid /\ mid > 0, "C04:unexpected-replay")
+                 ViolIf(m, mid <= m.maxMid /\ mid > 0 /\ ~m.c04off, "C04:unexpected-replay")
       \* a fresh (not replayed) identity while something is still expected is caught above
       m2 == IF cmd = "rewindable" /\ a # "" THEN
                (IF (a = "T") # m1.rewFlag /\ m1.ckpt THEN [m1 EXCEPT !.rewFlag = (a = "T"), !.since = <<>>] ELSE [m1 EXCEPT !.rewFlag = (a = "T")])
             ELSE IF cmd = "clear_checkpoint" THEN [m1 EXCEPT !.ckpt = FALSE, !.since = <<>>]
+            ELSE IF cmd = "checkpoint" /\ (\E k \in RunKeys : m1.keyOrd[k] # 0 /\ m1.bundle[k].open)
+                 THEN \* rejected (C15): not a checkpoint; the attempt itself is part of what was executed since the last one
+                      (IF m1.rewFlag /\ m1.ckpt THEN [m1 EXCEPT !.since = Append(@, mid)] ELSE m1)
             ELSE IF cmd = "checkpoint" THEN [m1 EXCEPT !.ckpt = TRUE, !.since = <<>>, !.deferCkpt = m1.deferPending]
             ELSE IF cmd \in ImplicitCkptCmds THEN [m1 EXCEPT !.since = <<>>]
             ELSE IF cmd \in Uncacheable \/ ~m1.rewFlag \/ ~m1.ckpt THEN m1
             ELSE [m1 EXCEPT !.since = Append(@, mid)]
       \* C09: after the checkpoint that consumes a deferred pause no further message may be executed before the pause
-      m3 == ViolIf(m2, m.deferCkpt /\ cmd # "checkpoint", "C09:message-after-deferred-checkpoint")
+      m3a == ViolIf(m2, m.deferCkpt /\ cmd # "checkpoint", "C09:message-after-deferred-checkpoint")
+      m3 == ViolIf(m3a, m.failPending /\ cmd = "checkpoint", "C12:status-failure-after-checkpoint")
       \* C11: while a suspension holds the plan only the helper's own messages (pre-plan, wait) may run
       m4a == IF cmd = "wait_for" /\ m3.susp # {} THEN [m3 EXCEPT !.suspWait = TRUE] ELSE
              IF cmd = "_resume_from_suspender" THEN [m3 EXCEPT !.suspWait = FALSE] ELSE m3
       \* a suspension starts: the engine rewinds; what was executed since the last checkpoint is replayed after the release
       m4 == IF cmd = "_start_suspender" /\ m4a.ckpt
-            THEN [m4a EXCEPT !.rew = @ + 1, !.expect = m4a.since \o m4a.expect, !.replaying = (m4a.since \o m4a.expect # <<>>), !.since = <<>>]
+            THEN [m4a EXCEPT !.bundle = [k \in RunKeys |-> [m4a.bundle[k] EXCEPT !.open = FALSE]], !.rew = @ + 1, !.expect = m4a.since \o m4a.expect, !.replaying = (m4a.since \o m4a.expect # <<>>), !.since = <<>>]
             ELSE m4a
-  IN [m4 EXCEPT !.maxMid = IF mid > @ THEN mid ELSE @, !.lastCmd = cmd]
+      \* a suspension starts: every moved device must be stopped (C11), one interruption record per open run (C40)
+      m5 == IF cmd = "_start_suspender"
+            THEN [m4 EXCEPT !.suspStopDue = {d \in Devices : m4.dev[d].dirty},
+                            !.runs = [o \in 1..MaxRuns |-> IF m4.runs[o].started /\ m4.runs[o].stopped = 0 /\ m4.recIntr
+                                                            THEN [m4.runs[o] EXCEPT !.intrWant = @ + 1] ELSE m4.runs[o]]]
+            ELSE m4
+  IN [m5 EXCEPT !.maxMid = IF mid > @ THEN mid ELSE @, !.lastCmd = cmd]
+
+UpdGen(mIn, e) ==
+  LET inp == e[2] val == e[3] react == e[4]
+      m0 == [mIn EXCEPT !.inObsClose = FALSE, !.curRun = "none"]
+      \* C15: a pending save expectation is settled when the plan is resumed
+      m1 == IF m0.expectEvent = "none" THEN m0
+            ELSE ViolIf([m0 EXCEPT !.expectEvent = "none", !.gotEvent = FALSE],
+                        (m0.expectEvent = "no") = m0.gotEvent /\ inp = "send" /\ m0.planMsg.cmd = "save",
+                        IF m0.gotEvent THEN "C15:event-from-empty-bundle" ELSE "C15:event-missing")
+      \* C12: a device error must be what the plan is resumed with
+      m2 == IF m1.devErrPending THEN ViolIf([m1 EXCEPT !.devErrPending = FALSE], ~(inp = "throw" /\ val = "DevErr"), "C12:device-error-not-delivered") ELSE m1
+      m3x == IF inp = "throw" /\ val = "FailedStatus" THEN [m2 EXCEPT !.failPending = FALSE] ELSE m2
+      \* C13: the value sent is the response to the plan's own message
+      m3 == IF inp = "throw" /\ m3x.planMsg.cmd \in ImplicitCkptCmds THEN [m3x EXCEPT !.c04off = TRUE, !.replaying = FALSE, !.expect = <<>>] ELSE m3x
+      m4 == IF inp = "send" /\ ExpectedResp(m3.planMsg) # {} /\ val \notin ExpectedResp(m3.planMsg)
+            THEN Viol(m3, "C13:response-mismatch:" \o m3.planMsg.cmd) ELSE m3
+      \* C14: a duplicate open_run must be rejected at that yield
+      m5 == IF m4.dupOpen THEN ViolIf([m4 EXCEPT !.dupOpen = FALSE], ~(inp = "throw" /\ val = "IMS"), "C14:duplicate-open-accepted") ELSE m4
+      \* C15: colliding reads / checkpoint inside a bundle must be rejected
+      m6 == IF m5.planMsg.cmd = "read" /\ m5.planMsg.run \in RunKeys /\ m5.bundle[m5.planMsg.run].collide
+            THEN ViolIf([m5 EXCEPT !.bundle[m5.planMsg.run].collide = FALSE], inp # "throw", "C15:colliding-read-accepted") ELSE m5
+      m7 == IF m6.planMsg.cmd \in {"checkpoint", "configure"} /\ (\E k \in RunKeys : m6.keyOrd[k] # 0 /\ m6.bundle[k].open)
+               /\ (m6.planMsg.cmd = "checkpoint" \/ (m6.planMsg.run \in RunKeys /\ m6.bundle[m6.planMsg.run].open))
+            THEN ViolIf(m6, inp # "throw", "C15:" \o m6.planMsg.cmd \o "-inside-bundle-accepted") ELSE m6
+      \* C11: the plan itself must not run while a suspension holds it
+      m8 == ViolIf(m7, m7.suspWait /\ inp = "send", "C11:plan-resumed-during-suspension")
+      m9 == IF react = "yield" THEN [m8 EXCEPT !.genYielded = TRUE, !.planMsg = [cmd |-> "?", obj |-> "", run |-> ""]]
+            ELSE IF react = "return" THEN [m8 EXCEPT !.planDone = TRUE]
+            ELSE [m8 EXCEPT !.planDone = TRUE, !.planRaised = react, !.faulty = (@ \/ react = "raise:PlanErr")]
+  IN m9
+
+\* dsc / cfg / dat / exp events (C03, C15, C16)
+UpdDsc(m, e) ==
+  LET stream == e[2] mask == e[3] ord == e[7] IN
+  IF ord < 1 \/ ord > m.nruns THEN m ELSE [m EXCEPT !.runs[ord].dmask[stream] = mask]
+UpdCfg(m, e) ==
+  LET d == e[3] ver == e[6] IN
+  IF d \notin Devices THEN m ELSE ViolIf(m, ver # m.cfgVer[d], "C16:stale-configuration")
+UpdDat(m, e) ==
+  LET stream == e[2] dig == e[3] mask == e[4] seq == e[6] ord == e[7] IN
+  IF ord < 1 \/ ord > m.nruns \/ StreamClass(stream) # "bundle" THEN m
+  ELSE LET m1 == ViolIf(m, m.expectEvent \notin {"none", "no"} /\ mask # m.expectEvent, "C15:event-keys-differ-from-bundle")
+           m2 == ViolIf(m1, m.runs[ord].dmask[stream] # "none" /\ mask # m.runs[ord].dmask[stream], "C15:event-keys-differ-from-descriptor")
+       IN [m2 EXCEPT !.gotData = {x \in @ : ~(x[1] = ord /\ x[2] = stream /\ x[3] = seq)} \cup {<<ord, stream, seq, dig>>}]
+UpdExp(m, e) == IF e[2] = "#outcome" THEN [m EXCEPT !.expOutcome = e[3]] ELSE [m EXCEPT !.expData = @ \cup {<<e[7], e[2], e[6], e[3]>>}]
 
 UpdState(m, e) ==
   LET o == e[2] n == e[3]
       m1 == ViolIf(m, o \notin DOMAIN Table \/ n \notin Table[o], "C07:illegal-transition:" \o o \o "->" \o n)
-      m2 == [m1 EXCEPT !.pausedNow = (n = "paused"), !.st = n]
+      m1b == IF n = "pausing" /\ m1.recIntr
+             THEN [m1 EXCEPT !.runs = [r \in 1..MaxRuns |-> IF m1.runs[r].started /\ m1.runs[r].stopped = 0
+                                                            THEN [m1.runs[r] EXCEPT !.intrWant = @ + 1] ELSE m1.runs[r]]]
+             ELSE m1
+      m2 == [m1b EXCEPT !.pausedNow = (n = "paused"), !.st = n, !.curRun = "none"]
       \* C09: the pause that follows a deferred request: nothing to replay
       m3 == IF n = "paused" /\ m.deferCkpt THEN ViolIf([m2 EXCEPT !.deferPending = FALSE, !.deferCkpt = FALSE], m.since # <<>>, "C09:replay-after-deferred-pause")
             ELSE IF n = "pausing" /\ ~m.deferCkpt THEN [m2 EXCEPT !.deferPending = FALSE] ELSE m2
@@ -159,7 +302,21 @@ UpdRet(m, e, s2) ==
   LET op == e[2] outcome == e[3] st == e[4] resumable == e[7]
       allStopped == \A o \in 1..m.nruns : m.runs[o].stopped = 1
       terminated == m.term # {} \/ m.termLate # {} \/ m.failedPause
-      m0 == ViolIf(m, ~m.faulty /\ outcome \notin {"ok", "interrupted"} /\ outcome # "exc:TransitionError", "C03:unexpected-error")
+      mm0 == ViolIf(m, ~m.faulty /\ outcome \notin {"ok", "interrupted", m.expOutcome} /\ outcome # "exc:TransitionError", "C03:unexpected-error")
+      \* C03: an execution that was only paused/resumed or suspended/released records the same data as the uninterrupted one
+      clean == m.term = {} /\ m.termLate = {} /\ ~m.failedPause /\ ~m.faulty /\ outcome = "ok" /\ st = "idle" /\ m.expData # {} /\ m.expOutcome = "ok"
+      mm1 == IF clean THEN ViolIf(ViolIf(mm0, \E x \in m.expData : \A y \in m.gotData : <<y[1], y[2], y[3]>> # <<x[1], x[2], x[3]>>, "C03:data-point-lost"),
+                                  \E y \in m.gotData : y \notin m.expData, IF \E y \in m.gotData : \A x \in m.expData : <<y[1], y[2], y[3]>> # <<x[1], x[2], x[3]>>
+                                                                          THEN "C03:extra-data-point" ELSE "C03:data-differs")
+             ELSE mm0
+      \* C11: the caller stays blocked while a suspension is in effect
+      mm2 == ViolIf(mm1, m.suspWait /\ m.term = {} /\ m.termLate = {} /\ ~m.failedPause /\ outcome \in {"ok", "interrupted"} /\ st # "paused", "C11:returned-during-suspension")
+      \* C12: a failed status must not be lost; an unhandled plan/device error is what the call raises
+      mm3 == ViolIf(mm2, m.failPending /\ outcome = "ok", "C12:status-failure-lost")
+      m0 == ViolIf(mm3, m.planRaised \in {"raise:DevErr", "raise:PlanErr", "raise:FailedStatus", "raise:IMS"} /\ st = "idle"
+                        /\ outcome # ("exc:" \o (CASE m.planRaised = "raise:DevErr" -> "DevErr" [] m.planRaised = "raise:PlanErr" -> "PlanErr"
+                                                      [] m.planRaised = "raise:FailedStatus" -> "FailedStatus" [] OTHER -> "IMS")),
+                   "C12:unhandled-exception-not-raised")
       m1 == ViolIf(m0, st \notin {"idle", "paused"}, "C07:not-settled:" \o st)
       m2 == IF outcome = "interrupted"
             THEN ViolIf(m1, ~((st = "paused" /\ resumable = 1) \/ (terminated /\ st = "idle" /\ allStopped)),
@@ -209,14 +366,22 @@ UpdReqRet(m, e, s2) ==
 
 UpdCall(m, e, s) ==
   LET op == e[2] IN
-  IF op = "run" THEN [m EXCEPT !.term = {}, !.termLate = {}, !.failedPause = FALSE, !.callRuns = m.nruns, !.deferPending = FALSE,
+  IF op = "run" THEN [m EXCEPT !.c04off = FALSE, !.recIntr = (e[3] = "ri"), !.genYielded = FALSE, !.planMsg = [cmd |-> "", obj |-> "", run |-> ""], !.planRaised = "",
+                               !.devErrPending = FALSE, !.failPending = FALSE, !.curRun = "none", !.pendingOpen = "none", !.dupOpen = FALSE,
+                               !.bundle = [k \in RunKeys |-> [open |-> FALSE, mask |-> 0, n |-> 0, collide |-> FALSE]],
+                               !.expectEvent = "none", !.gotEvent = FALSE, !.suspStopDue = {}, !.gotData = {},
+                               !.keyOrd = [k \in RunKeys |-> 0],
+                               !.term = {}, !.termLate = {}, !.failedPause = FALSE, !.callRuns = m.nruns, !.deferPending = FALSE,
                                !.deferCkpt = FALSE, !.since = <<>>, !.expect = <<>>, !.replaying = FALSE, !.ckpt = TRUE,
                                !.susp = {}, !.suspWait = FALSE, !.pausedNow = FALSE, !.faulty = FALSE, !.lastCmd = "", !.reqs = <<>>,
                                !.planDone = FALSE,
                                !.dev = [d \in Devices |-> [@[d] EXCEPT !.lost = 0]]]
   ELSE LET rec == [kind |-> "call:" \o op, pc |-> Where(m), st |-> m.st, res |-> m.ckpt, out |-> "", after |-> m.lastCmd]
            m1 == [m EXCEPT !.reqs = Append(@, rec)]
-       IN IF op = "resume" THEN [m1 EXCEPT !.rew = @ + 1, !.expect = m.since \o m.expect, !.replaying = (m.since \o m.expect # <<>>), !.since = <<>>]
+       IN IF op = "resume" THEN [m1 EXCEPT !.runs = [o \in 1..MaxRuns |-> IF m1.runs[o].started /\ m1.runs[o].stopped = 0 /\ m1.recIntr
+                                                                          THEN [m1.runs[o] EXCEPT !.intrWant = @ + 1] ELSE m1.runs[o]],
+                                         !.bundle = [k \in RunKeys |-> [m1.bundle[k] EXCEPT !.open = FALSE]],
+                                         !.rew = @ + 1, !.expect = m.since \o m.expect, !.replaying = (m.since \o m.expect # <<>>), !.since = <<>>]
           ELSE [m1 EXCEPT !.term = @ \cup {op}]
 
 Upd(m, e, s, s2) ==
@@ -230,10 +395,12 @@ Upd(m, e, s, s2) ==
     [] k = "req" -> UpdReq(m, e, s)
     [] k = "reqret" -> UpdReqRet(m, e, s2)
     [] k = "call" -> UpdCall(m, e, s)
-    [] k = "stat" -> IF e[7] = 0 THEN [m EXCEPT !.faulty = TRUE] ELSE m
-    [] k = "gen" -> LET m1 == [m EXCEPT !.inObsClose = FALSE] IN
-                    IF e[4] = "raise:PlanErr" THEN [m1 EXCEPT !.faulty = TRUE, !.planDone = TRUE]
-                    ELSE IF e[4] = "yield" THEN m1 ELSE [m1 EXCEPT !.planDone = TRUE]
+    [] k = "stat" -> IF e[7] = 0 THEN [m EXCEPT !.faulty = TRUE, !.failPending = ~m.planDone] ELSE m
+    [] k = "dsc" -> UpdDsc(m, e)
+    [] k = "cfg" -> UpdCfg(m, e)
+    [] k = "dat" -> UpdDat(m, e)
+    [] k = "exp" -> UpdExp(m, e)
+    [] k = "gen" -> UpdGen(m, e)
     [] OTHER -> m
 
 RECURSIVE FoldEv(_, _, _, _, _)
@@ -243,10 +410,10 @@ FoldEv(m, es, i, s, s2) == IF i > Len(es) THEN m ELSE FoldEv(Upd(m, es[i], s, s2
 MonNext == mon' = FoldEv(mon, obs', 1, S, S')
 
 \* ---------------------------------------------------------------------------
-C01Tags == {"C01:start-order", "C01:no-run-start", "C01:second-stop", "C01:doc-after-stop", "C01:event-without-descriptor",
+C01Tags == {"C01:duplicate-uid", "C01:schema-invalid", "C01:start-order", "C01:no-run-start", "C01:second-stop", "C01:doc-after-stop", "C01:event-without-descriptor",
             "C01:run-not-stopped-at-idle"}
 C02Tags == {"C02:exit-status"}
-C03Tags == {"C03:unexpected-error"}
+C03Tags == {"C03:unexpected-error", "C03:data-point-lost", "C03:extra-data-point", "C03:data-differs"}
 C04Tags == {"C04:replay-mismatch", "C04:unexpected-replay"}
 C05Tags == {"C05:gap:bundle", "C05:gap:monitor", "C05:gap:interruptions",
             "C05:duplicate-seq:bundle", "C05:duplicate-seq:monitor", "C05:duplicate-seq:interruptions",
@@ -259,18 +426,21 @@ C08Tags == {"C08:interrupted-but-idle", "C08:interrupted-but-paused", "C08:inter
             "C08:normal-return-without-completion"}
 C09Tags == {"C09:message-after-deferred-checkpoint", "C09:replay-after-deferred-pause"}
 C10Tags == {"C10:paused-after-failed-pause", "C10:not-reported"}
-C40Tags == {"C05:duplicate-seq:interruptions", "C05:num_events:interruptions", "C05:gap:interruptions"}
+C11Tags == {"C11:moved-not-stopped-at-suspension", "C11:plan-resumed-during-suspension", "C11:returned-during-suspension"}
+C12Tags == {"C12:device-error-not-delivered", "C12:status-failure-after-checkpoint", "C12:status-failure-lost", "C12:unhandled-exception-not-raised"}
+C14Tags == {"C14:document-in-wrong-run", "C14:duplicate-open-accepted"}
+C15Tags == {"C15:event-from-empty-bundle", "C15:event-missing", "C15:colliding-read-accepted", "C15:checkpoint-inside-bundle-accepted",
+            "C15:configure-inside-bundle-accepted", "C15:event-keys-differ-from-bundle", "C15:event-keys-differ-from-descriptor"}
+C16Tags == {"C16:stale-configuration", "C16:event-references-old-descriptor"}
+C40Tags == {"C40:count", "C40:stream-when-disabled", "C05:duplicate-seq:interruptions", "C05:num_events:interruptions", "C05:gap:interruptions"}
 C41Tags == {"C41:update-while-paused", "C41:update-while-suspended", "C05:duplicate-seq:monitor", "C05:num_events:monitor"}
 
-IsC07Illegal(t) == t \notin (C03Tags \cup C01Tags \cup C02Tags \cup C04Tags \cup C05Tags \cup C06Tags \cup C07Settled \cup C08Tags \cup C09Tags \cup C10Tags \cup C41Tags)
-
-C01 == mon.viol \cap C01Tags = {}
 C03 == mon.viol \cap C03Tags = {}
 C02 == mon.viol \cap C02Tags = {}
 C04 == mon.viol \cap C04Tags = {}
 C05 == mon.viol \cap C05Tags = {}
 C06 == mon.viol \cap C06Tags = {}
-C07 == mon.viol \cap C07Settled = {} /\ \A t \in mon.viol : ~IsC07Illegal(t)
+C07 == mon.viol \cap C07Settled = {}
 C08 == mon.viol \cap C08Tags = {}
 C09 == mon.viol \cap C09Tags = {}
 C10 == mon.viol \cap C10Tags = {}
